@@ -121,8 +121,15 @@ func (s *grpcServer) BatchUpdateBlobs(ctx context.Context,
 			}
 		}
 
+		if int64(len(req.Data)) != req.Digest.SizeBytes {
+			s.errorLogger.Printf("%s %s SIZE MISMATCH: digest says %d bytes, got %d",
+				errorPrefix, req.Digest.Hash, req.Digest.SizeBytes, len(req.Data))
+			rr.Status.Code = int32(codes.InvalidArgument)
+			continue
+		}
+
 		err = s.cache.Put(ctx, cache.CAS, req.Digest.Hash,
-			int64(len(req.Data)), bytes.NewReader(req.Data))
+			req.Digest.SizeBytes, bytes.NewReader(req.Data))
 		if err != nil && err != io.EOF {
 			s.logErrorPrintf(err, "%s %s %s", errorPrefix, req.Digest.Hash, err)
 			rr.Status.Code = int32(gRPCErrCode(err, codes.Internal))
